@@ -89,18 +89,37 @@ def register_tcp_client(R):
 
     EOFL = "self.__endpoint._StreamEndpoint__receiver._eof_reached"
     CONS = "self.__endpoint._StreamEndpoint__receiver.consumer"
+    # the parser outcome on the pending bytes, lifted from the receiver's contract to the client (C03)
+    from contracts.c_stream import P
+    KG, KB = f"{CONS}._StreamDataConsumer__consumer", f"{CONS}._StreamDataConsumer__buffer"
+    U = f"(({KG}.T if not isnone({KG}) else b'') + {KB})"
+    X = "(U0 + ghost.IN[len(old(ghost.IN)):])"
+
+    def PX(x):
+        return {k: v.replace("self.__protocol._StreamProtocol__converter", f"{CONS}._StreamDataConsumer__protocol._StreamProtocol__converter")
+                for k, v in P(x, "StreamProtocol").items()}
+
+    p, p0 = PX(X), PX("U0")
     R.contract(
         "TCPNetworkClient.recv_packet",
         params={"timeout": "opt[xreal]"}, result="obj",
         requires=[("ghost: no block has run yet", "not ghost.block_raised"),
                   ("deserializer-needs-input", "fn('S_kind', 'int', b'') == 0"),
                   ("latch-mirrors-the-transport", f"{EOFL} == ghost.EOF")],
-        ensures=[("receive-lock-released", f"not {RL}", "C12 C11")],
+        ghost={"U0": U},
+        ensures=[("receive-lock-released", f"not {RL}", "C12 C11"),
+                 ("the-next-packet-of-the-pending-bytes", f"{p['done']} and result == {p['pkt']}", "C03"),
+                 ("remainder-kept", f"{U} == {p['rest']}", "C03 C10"),
+                 ("a-buffered-packet-is-returned-without-reading", f"implies(not ({p0['need']}), ghost.recv_calls == old(ghost.recv_calls) and ghost.IN == old(ghost.IN))", "C03")],
         raises={
             "ConnectionAbortedError": [
                 ("end-of-stream (or a connection error) is reported as ConnectionAbortedError; once end-of-stream was seen no further transport call is made",
                  f"implies(old({EOFL}), ghost.recv_calls == old(ghost.recv_calls))", "C03"),
+                ("end-of-stream-is-never-reported-while-a-complete-packet-is-buffered", p["need"], "C03"),
+                ("nothing-lost", f"{U} == {X}", "C03 C10"),
                 ("receive-lock-released", f"not {RL}", "C12 C11")],
+            "StreamProtocolParseError": [("parser-error-on-the-pending-bytes", p["err"], "C03 C06"), ("remainder-kept", f"{U} == {p['rest']}", "C03 C10"),
+                                         ("receive-lock-released", f"not {RL}", "C12 C11")],
             "BaseException": [("receive-lock-released-on-every-exit", f"not {RL}", "C12 C11")],
         },
         modifies=["ghost.IN", "ghost.recv_calls", "ghost.EOF", "ghost.io_errors", "ghost.now", "ghost.waited", "ghost.unbounded_waits", "ghost.block_raised", RL,
